@@ -811,6 +811,10 @@ func resolveBlockAddress(block *hcl.Block, blockSchema *schema.BlockSchema) (lan
 				return lang.Address{}, false
 			}
 			val, _ := attr.Expr.Value(nil)
+			if val.IsNull() {
+				// null value
+				return lang.Address{}, false
+			}
 			if !val.IsWhollyKnown() {
 				// unknown value
 				return lang.Address{}, false
